@@ -930,3 +930,28 @@ Proof.
   - constructor; wsimpl; try assumption; rewrite E1; reflexivity.
   - unfold masks_ok. wsimpl. rewrite E10. assumption.
 Qed.
+
+(* every constructor of wsutil.Writer *)
+Lemma constructors_c06 ops state op n masks exts comp w0 :
+  (new_writer_buffer (mkDest [] None) state op n masks = inr w0 \/
+   new_writer_buffer_size (mkDest [] None) state op n masks = inr w0 \/
+   new_writer_size (mkDest [] None) state op n masks = inr w0) ->
+  n + 14 <= max_int -> op < 16 -> Forall wf_key masks -> exts_comp exts comp ->
+  Forall c06_op ops -> 28 + 4 * ops_cost ops <= max_int ->
+  let w := set_extensions exts w0 in
+  c06_monitor (client_side state) op comp (w_buflen w)
+    (steps_of ops (fst (run_wops ops w))) (dest_log (w_dest (snd (run_wops ops w)))) = true.
+Proof.
+  intros Hn Hr Ho Hm Hx Hops Hbud.
+  assert (Hsz: forall k, k <= max_int -> (if k <=? 2 then default_write_buffer else k) <= max_int).
+  { intros k Hk. destruct (k <=? 2); [vm_compute; discriminate|assumption]. }
+  assert (Hhs: (if 0 <? n then n + w_header_size state n else n) <= max_int).
+  { destruct (0 <? n); [|lia]. unfold w_header_size. pose proof (mask_len_cases state).
+    destruct (n <? 126); [lia|]. destruct (n <=? 65535); lia. }
+  destruct Hn as [Hn|[Hn|Hn]].
+  - apply (new_writer_buffer_c06 ops state op n masks exts comp w0 Hn); try assumption. lia.
+  - unfold new_writer_buffer_size in Hn.
+    apply (new_writer_buffer_c06 ops state op _ masks exts comp w0 Hn); try assumption. apply Hsz. lia.
+  - unfold new_writer_size, new_writer_buffer_size in Hn.
+    apply (new_writer_buffer_c06 ops state op _ masks exts comp w0 Hn); try assumption. apply Hsz. assumption.
+Qed.
